@@ -124,6 +124,10 @@ pub(crate) fn build_query_response<'a>(
 
     // The records accumulated per response packet.
     let mut records = Vec::with_capacity(addresses.len() * MAX_TXT_RECORD_SIZE);
+    // Size of the packet under construction: the fixed part written by
+    // `query_response_packet()` plus the records accumulated so far.
+    let header_size = 12 + (SERVICE_NAME.len() + 2) + 10 + 2 + peer_name_bytes.len();
+    let mut packet_size = header_size;
 
     // Encode the addresses as TXT records, and multiple TXT records into a
     // response packet.
@@ -132,6 +136,15 @@ pub(crate) fn build_query_response<'a>(
         let mut txt_record = Vec::with_capacity(txt_to_send.len());
         match append_txt_record(&mut txt_record, &peer_name_bytes, ttl, &txt_to_send) {
             Ok(()) => {
+                // `MAX_RECORDS_PER_PACKET` is only an estimate (long peer names and long
+                // addresses exceed `MAX_TXT_RECORD_SIZE`): never let a packet grow beyond
+                // `MAX_PACKET_SIZE`.
+                if !records.is_empty() && packet_size + txt_record.len() > MAX_PACKET_SIZE {
+                    packets.push(query_response_packet(id, &peer_name_bytes, &records, ttl));
+                    records.clear();
+                    packet_size = header_size;
+                }
+                packet_size += txt_record.len();
                 records.push(txt_record);
             }
             Err(e) => {
@@ -142,6 +155,7 @@ pub(crate) fn build_query_response<'a>(
         if records.len() == MAX_RECORDS_PER_PACKET {
             packets.push(query_response_packet(id, &peer_name_bytes, &records, ttl));
             records.clear();
+            packet_size = header_size;
         }
     }
 
